@@ -81,22 +81,7 @@ def _run(F, R, ctx):
     # ---- c
     for nm in ("enter_safepoint", "enter_safepoint_once"):
         fn = F.one(r"^steel::steel_vm::vm::\{impl SteelThread\}::%s$" % nm)
-        parks = fn.call_blocks(r"std::thread::(functions::)?park$")
-        sws = lib.enum_switches(fn, "ThreadState")
-        ok = bool(parks) and bool(sws)
-        if ok:
-            for sw in sws:
-                m = lib.arm_map(fn, sw)
-                it = m.get("Interrupted")
-                other = m["_"]
-                if it is None or it == other:
-                    ok = False
-                    continue
-                # from the Interrupted arm no park is reachable without passing the loop test again
-                arm = fn.reachable_from([it], avoid={sw})
-                # the arm must leave the loop: it reaches the return without going through a park
-                r2 = fn.reachable_from([it], avoid=set(parks) | {sw})
-                ok = ok and bool(set(fn.returns()) & r2)
+        ok, _ = lib.leaves_wait_on_interrupt(F, fn)
         R.inst("C17.c", "SteelThread::%s / wait loop exits on Interrupted" % nm, ok,
                "the wait loop of SteelThread::%s no longer tests ThreadState::Interrupted before parking: a thread that is "
                "interrupted while it waits at a safepoint sleeps until somebody resumes it" % nm, fn.loc(), sample=True)
